@@ -12,11 +12,11 @@ ID = "C13"
 LEVEL = "exploration"
 REQUIRED_OUTCOMES = ["parse:ok", "epoch:absent", "epoch:nonzero", "prefix:dir", "suffix:rpm", "add:ok"]
 
-SEGMENTS = ["a", "1", "a1", "a.b", "b_c+"]
+SEGMENTS = ["a", "1", "a1", "a.b", "b_c+", "Py"]
 EPOCHS = [None, "0", "1", "10", "007"]
-VERSIONS = ["1", "1.2", "1~rc1", "1^git", "a", "1.2.3_4+5"]
-RELEASES = ["1", "1.el7", "0.1.rc9.el7cp", "2^a~b"]
-PREFIXES = ["", "Packages/", "a-1/b-2.c/", "/abs/x-1-2.y/", "./", "http://host:8080/d-1/", "host:/export/x/", "d/" * 150]
+VERSIONS = ["1", "1.2", "1~rc1", "1^git", "a", "1.2.3_4+5", "1.0~RC1"]
+RELEASES = ["1", "1.el7", "0.1.rc9.el7cp", "2^a~b", "0.3.GA.el7"]
+PREFIXES = ["", "/", "Packages/", "a-1/b-2.c/", "/abs/x-1-2.y/", "./", "http://host:8080/d-1/", "host:/export/x/", "d/" * 150]
 
 
 def names(maxseg):
